@@ -319,11 +319,19 @@ package log
 
 // Shutdown: only the call that flips `stopped` flushes; the final export is the whole queue content, oldest first, handed
 // to the exporter chain (which chunks it)
+//@ ghost var bpExpShut int
 //@ func (b *BatchProcessor) Shutdown(ctx context.Context) (err error)
-//@   prop C06
+//@   prop C06 C15
 //@   unchecked frame channel operations, exporter chain
 //@   requires b != nil && ctx != nil && b.exporter != nil && b.exporter.Exporter != nil
 //@   ensures b.stopped.v != 0
+// the call that flips `stopped` shuts the exporter chain down EXACTLY ONCE on every path - also when the context is done before
+// the poll goroutine has stopped (no later call could make up for it: they all return at the stopped check); other calls never do
+//@   modifies ghost bpExpShut
+//@   ghost@entry : bpExpShut = 0
+//@   ghost@call bufferExporter.Shutdown#* : bpExpShut = bpExpShut + 1
+//@   assert@call bufferExporter.Shutdown#* : old(b.stopped.v) == 0 && $arg0 == b.exporter
+//@   assert@return#* : (old(b.stopped.v) == 0 && b.q != nil ==> bpExpShut == 1) && (old(b.stopped.v) != 0 ==> bpExpShut == 0)
 //@   assert@call queue.Flush#* : old(b.stopped.v) == 0 && b.stopped.v != 0
 //@   assert@call bufferExporter.Export#* : old(b.stopped.v) == 0 && len($arg2) == old(b.q.len)
 
@@ -428,3 +436,19 @@ package log
 //@   requires p != nil
 //@   ensures old(p.stopped.v) != 0 ==> err == nil
 //@   assert@call ForceFlush#* : old(p.stopped.v) == 0 && $arg0 == old(p).processors[$k]
+
+// timeoutExporter: the wrapped exporter is called synchronously - Export returns only after the wrapped Export has returned (so the
+// single export goroutine never has two Export calls of the user's exporter in flight) - with the same records, under a context
+// that carries the timeout; no goroutine is spawned here
+//@ func (e *timeoutExporter) Export(ctx context.Context, records []Record) (err error)
+//@   prop C06
+//@   overflow assumed
+//@   unchecked frame,no-panic context and third-party exporter
+//@   requires e != nil
+//@   modifies ghost teCalls
+//@   ghost@entry : teCalls = 0
+//@   ghost@call Export#* : teCalls = teCalls + 1
+//@   assert@call Export#* : $arg2 === records
+//@   assert@call WithTimeout#1 : $arg0 == ctx && $arg1 == e.timeout
+//@   assert@return#* : teCalls == 1
+//@ ghost var teCalls int
